@@ -516,3 +516,109 @@ func TestVerifC02Nodes(t *testing.T) {
 		"(then node 1 always names every dimension and is never deleted); after every node event the manager's total, the root calculator's total and the known node set are compared with the from-scratch sum over the " +
 		"current nodes, then the spec harness's per-level blocks, runtime oracle and fresh manager (fed the final nodes with OnNodeAdd) run with that sum as the cluster total; non-trivial = a level with >=2 siblings")
 }
+
+// TestVerifC02NodesExhaustive (thorough tier): EVERY sequence of 1-4 informer-coherent node events over two nodes
+// whose allocatable is one of six shapes (cpu absent | 2 cores) x (gpu absent | explicit 0 | 3): per node `set`
+// to a shape (an add, or an update from the node's current object), delete, replayed add — 16 events.  After every
+// event the manager's total / the root calculator's total / the known node set are compared with the from-scratch
+// sum over the current nodes; at the end two fixed siblings (min 1 gpu / 1 core, request 4 gpu / 4 cores, lending)
+// are divided and judged by c02Oracle against that sum.
+func TestVerifC02NodesExhaustive(t *testing.T) {
+	h := vOpen("C02")
+	if h == nil {
+		t.Skip("VERIF_OUT not set")
+	}
+	gateName := string(features.ElasticQuotaGuaranteeUsage)
+	if err := utilfeature.DefaultMutableFeatureGate.Set(gateName + "=false"); err != nil {
+		t.Fatalf("feature gate: %v", err)
+	}
+	var shapes []c02RLd
+	for _, cpu := range []int64{-1, 2000} {
+		for _, gpu := range []int64{-1, 0, 3} {
+			a := c02RLd{}
+			if cpu >= 0 {
+				a[0] = cpu
+			}
+			if gpu >= 0 {
+				a[2] = gpu
+			}
+			shapes = append(shapes, a)
+		}
+	}
+	const nEv = 16 // per node: 6 set-to-shape, delete, replayed add
+	idx := 0
+	run := func(seq []int) {
+		r := h.Begin(idx)
+		idx++
+		if r == nil {
+			return
+		}
+		w := &c02World{nodes: &c02NodeSet{cur: map[int]c02RLd{}, nextID: 3}}
+		m := c02NewMgr(w)
+		for i := 1; i <= 2; i++ {
+			q := &c02D{id: i, name: fmt.Sprintf("q%03d", i), present: true, max: c02RLd{0: 8000, 2: 8}, min: c02RLd{0: 1000, 2: 1}}
+			w.qs = append(w.qs, q)
+			if err := m.gqm.UpdateQuota(c02Build(w, q)); err != nil {
+				t.Fatalf("UpdateQuota: %v", err)
+			}
+			q.req = [3]int64{4000, 0, 4}
+			m.setReq(q, [3]int64{}, q.req)
+		}
+		crashed := false
+		for _, e := range seq {
+			id, k := e/8+1, e%8
+			old, known := w.nodes.cur[id]
+			switch {
+			case k < 6 && known:
+				crashed = c02nUpdate(h, w, m, id, old, shapes[k])
+			case k < 6:
+				crashed = c02nAdd(h, w, m, id, shapes[k])
+			case k == 6 && known:
+				crashed = c02nDelete(h, w, m, id, old)
+			case k == 6: // delete of a node that does not exist: the informer has nothing to deliver; hand a junk object
+				crashed = c02nDelete(h, w, m, id, shapes[5])
+			case known:
+				crashed = c02nAdd(h, w, m, id, old)
+			default: // nothing to replay
+				continue
+			}
+			if crashed {
+				h.Obs("panic")
+				h.Fail("C02:panic", "a node event panicked")
+				break
+			}
+			c02nObserve(h, w, m)
+		}
+		if !crashed {
+			rts := m.refresh(w, nil)
+			for _, d := range []int{0, 2} {
+				var ns []*c02Node
+				for _, q := range w.qs {
+					ns = append(ns, &c02Node{name: q.id, w: q.max[d], req: q.req[d], min: q.min[d], lend: true, rt: c02Val(rts[q.id], d)})
+				}
+				c02Emit(h, w.total[d], ns)
+				c02Oracle(h, w.total[d], ns)
+			}
+		}
+		h.Nontrivial()
+		h.End()
+	}
+	for n := 1; n <= 4; n++ {
+		seq := make([]int, n)
+		var rec func(i int)
+		rec = func(i int) {
+			if i == n {
+				run(seq)
+				return
+			}
+			for e := 0; e < nEv; e++ {
+				seq[i] = e
+				rec(i + 1)
+			}
+		}
+		rec(0)
+	}
+	h.Extra("exhaustive", fmt.Sprintf("all sequences of 1..4 node events over 2 nodes x (6 allocatable shapes | delete | replayed add): %d cases", idx))
+	h.Close("exhaustive: every sequence of 1-4 informer-coherent node events (set to one of 6 allocatable shapes = cpu absent|2000m x gpu absent|0|3, delete, replayed add) over two nodes, " +
+		"total checked against the from-scratch sum after every event, two fixed lending siblings divided at the end; every case counts as non-trivial")
+}
